@@ -8,7 +8,7 @@
    Times are integers: the harness scales the (dyadic) float onsets/durations of a case
    by one common power of two, which preserves order and equality -- the only things
    ps13 uses of them. *)
-From PV Require Import Lib.Base Gen.C17_PS13.
+From PV Require Import Lib.Base Gen.C17_PS13 Gen.C17_MidiTab.
 #[local] Open Scope Z_scope.
 
 (* a row of the note array: (onset, pitch, duration) *)
@@ -97,6 +97,24 @@ Definition midi_of (s : spelling) : option Z :=
   | Some b => Some (12 * (sp_octave s + 1) + b + sp_alter s)
   | None => None
   end.
+
+(* the same on a step NAME *)
+Definition midi_of_name (st : string) (al oc : Z) : option Z :=
+  match step_pc st with
+  | Some b => Some (12 * (oc + 1) + b + al)
+  | None => None
+  end.
+
+(* what partitura itself says a spelled note sounds: score.Note(step, octave, alter).midi_pitch,
+   tabulated by running it on every step of STEPS x alter -2..2 x octave 0..8 (Gen/C17_MidiTab.v);
+   None outside that domain *)
+Fixpoint note_midi_in (t : list (string * Z * Z * Z)) (st : string) (al oc : Z) : option Z :=
+  match t with
+  | [] => None
+  | (st', al', oc', v) :: r =>
+      if String.eqb st st' && (al =? al') && (oc =? oc') then Some v else note_midi_in r st al oc
+  end.
+Definition note_midi_pitch (st : string) (al oc : Z) : option Z := note_midi_in note_midi_tab st al oc.
 
 (* spelling of chromatic pitch cp when morph m was selected *)
 Definition spell_cm (cp m : Z) : spelling := p2pn cp (morphetic_pitch cp m).
